@@ -137,6 +137,10 @@ def install(ctx):
 
 
 def gen_case(rng, tier, ctx, i):
+    if rng.random() < 0.025:
+        rec = common.deep_chain(rng, rng.randint(34, 46))        # very deep nesting
+        ctx.count("count:deep-models")
+        return {"recipe": rec, "seed": rng.getrandbits(32)}
     o = common.varied_opts(rng, tier)
     rec = common.model_case(rng, tier, o)
     if rec is None:
